@@ -152,8 +152,13 @@ def shallow_round_factory(tol):
   """helper function for shallow_round (a factory for shallow_round functions)"""
   def around(iterable, tol):
     if isinstance(iterable, float): return round(iterable, tol)
+    if isinstance(iterable, (str, bytes)): return iterable # not a container
     from klepto.tools import isiterable
     if not isiterable(iterable): return iterable
+    if isinstance(iterable, dict): # round the values, not the keys
+      _iterable = iterable.copy()
+      _iterable.update((i,round(j, tol)) for i,j in iterable.items() if isinstance(j, float))
+      return _iterable
     itype = type(iterable)
     _iterable = list(iterable)
     for i,j in enumerate(iterable):
